@@ -38,6 +38,59 @@ impl<'ast> syn::visit::Visit<'ast> for AttrFinder {
     }
 }
 
+fn is_cfg(attrs: &[syn::Attribute]) -> bool {
+    attrs.iter().any(|a| a.path.is_ident("cfg") || a.path.is_ident("cfg_attr"))
+}
+
+fn add_helper(d: &mut Decls, rel: &str, owner: &str, attrs: &[syn::Attribute], sig: &syn::Signature, block: &syn::Block, under_cfg: bool) {
+    let name = sig.ident.to_string();
+    let mut unusable = None;
+    if under_cfg || is_cfg(attrs) {
+        unusable = Some("it is under `#[cfg]`".to_string());
+    }
+    let mut af = AttrFinder { first: None };
+    syn::visit::Visit::visit_block(&mut af, block);
+    if let Some((l, a)) = af.first {
+        unusable = Some(format!("attribute `{}` inside its body ({}:{})", a, rel, l));
+    }
+    let key = (owner.to_string(), name.clone());
+    if let Some(prev) = d.helpers.get_mut(&key) {
+        prev.unusable = Some(format!("it is defined more than once ({}:{} and {}:{})", prev.file, prev.line, rel, line_of(sig)));
+        return;
+    }
+    let text = format!("{} {}", tok(sig), tok(block));
+    d.helpers.insert(
+        key,
+        Helper {
+            file: rel.to_string(),
+            owner: owner.to_string(),
+            name,
+            sig: sig.clone(),
+            block: block.clone(),
+            line: line_of(sig),
+            hash: sha::sha256_hex(text.as_bytes()),
+            unusable,
+        },
+    );
+}
+
+#[allow(clippy::too_many_arguments)]
+fn add_const_src(d: &mut Decls, rel: &str, owner: &str, attrs: &[syn::Attribute], ident: &syn::Ident, ty: &syn::Type, expr: &syn::Expr, under_cfg: bool) {
+    let key = (owner.to_string(), ident.to_string());
+    let mut unusable = None;
+    if under_cfg || is_cfg(attrs) {
+        unusable = Some("it is under `#[cfg]`".to_string());
+    }
+    if let Some(prev) = d.const_srcs.get_mut(&key) {
+        prev.unusable = Some(format!("it is defined more than once ({}:{} and {}:{})", prev.file, line_of(&prev.ident), rel, line_of(ident)));
+        return;
+    }
+    d.const_srcs.insert(
+        key,
+        ConstSrc { file: rel.to_string(), ident: ident.clone(), ty: ty.clone(), expr: expr.clone(), unusable },
+    );
+}
+
 fn impl_owner(i: &syn::ItemImpl) -> Option<String> {
     if i.trait_.is_some() {
         return None;
@@ -100,6 +153,55 @@ fn translate_group(repo: &Path, g: &targets::Group) -> R<String> {
         match it {
             Some(e) => d.add_struct(&p.rel, e)?,
             None => return refuse(&p.rel, 0, format!("whitelisted struct `{}` not found", name)),
+        }
+    }
+
+    // ---- everything else in those files: candidates for inlining / value substitution
+    for p in files.values() {
+        for it in find_items(&p.ast) {
+            match it {
+                syn::Item::Fn(func) => {
+                    let name = func.sig.ident.to_string();
+                    if g.fns.iter().any(|(f, o, n)| f == &p.rel && o.is_empty() && n == &name) {
+                        continue;
+                    }
+                    add_helper(&mut d, &p.rel, "", &func.attrs, &func.sig, &func.block, false);
+                }
+                syn::Item::Const(c) => {
+                    let name = c.ident.to_string();
+                    if g.consts.iter().any(|(f, o, n)| f == &p.rel && o.is_empty() && n == &name) {
+                        continue;
+                    }
+                    add_const_src(&mut d, &p.rel, "", &c.attrs, &c.ident, &c.ty, &c.expr, false);
+                }
+                syn::Item::Impl(i) => {
+                    let owner = match impl_owner(i) {
+                        Some(o) => o,
+                        None => continue,
+                    };
+                    let under_cfg = i.attrs.iter().any(|a| a.path.is_ident("cfg") || a.path.is_ident("cfg_attr"));
+                    for ii in &i.items {
+                        match ii {
+                            syn::ImplItem::Method(m) => {
+                                let name = m.sig.ident.to_string();
+                                if g.fns.iter().any(|(f, o, n)| f == &p.rel && o == &owner && n == &name) {
+                                    continue;
+                                }
+                                add_helper(&mut d, &p.rel, &owner, &m.attrs, &m.sig, &m.block, under_cfg);
+                            }
+                            syn::ImplItem::Const(c) => {
+                                let name = c.ident.to_string();
+                                if g.consts.iter().any(|(f, o, n)| f == &p.rel && o == &owner && n == &name) {
+                                    continue;
+                                }
+                                add_const_src(&mut d, &p.rel, &owner, &c.attrs, &c.ident, &c.ty, &c.expr, under_cfg);
+                            }
+                            _ => {}
+                        }
+                    }
+                }
+                _ => {}
+            }
         }
     }
 
@@ -194,6 +296,7 @@ fn translate_group(repo: &Path, g: &targets::Group) -> R<String> {
     for s in &srcs {
         let sig = d.fns[&(s.owner.clone(), s.name.clone())].clone();
         let (mut cx, params) = FnCx::new(&d, &s.rel, &s.owner, &sig);
+        cx.inline_stack.push((s.owner.clone(), s.name.clone()));
         let ret = sig.ret.clone();
         let mut af = AttrFinder { first: None };
         syn::visit::Visit::visit_block(&mut af, s.block);
@@ -209,6 +312,7 @@ fn translate_group(repo: &Path, g: &targets::Group) -> R<String> {
             body,
             deps: cx.deps.iter().cloned().collect(),
             errs: cx.errs.iter().cloned().collect(),
+            inlined: cx.inlined.iter().map(|(k, v)| (k.clone(), v.clone())).collect(),
             hash: sha::sha256_hex(s.text.as_bytes()),
             file: s.rel.clone(),
             line: line_of(s.sig),
@@ -259,6 +363,16 @@ fn emit(g: &targets::Group, d: &Decls, fns: &[FnDef]) -> String {
     }
     for f in fns {
         o.push_str(&format!("     {}:{} fn {} {}\n", f.file, f.line, f.rust_path, f.hash));
+    }
+    // non-whitelisted items of the same files that the targets use (inlined / substituted)
+    let mut extra: BTreeMap<String, String> = d.used_extra.borrow().clone();
+    for f in fns {
+        for (k, v) in &f.inlined {
+            extra.insert(k.clone(), v.clone());
+        }
+    }
+    for (k, v) in &extra {
+        o.push_str(&format!("     {} {}\n", k, v));
     }
     o.push_str("-/\nimport CamVerif.Prelude.Machine\nset_option linter.unusedVariables false\n");
     o.push_str(&format!("namespace CamVerif.Gen.{}\nopen CamVerif\n\n", g.out));
